@@ -84,6 +84,9 @@ class Interp:
         self.stats = {'blocks': 0, 'joins': 0, 'widenings': 0, 'calls_inlined': 0,
                       'worlds_max': 0, 'functions': set()}
         self._single_assign = {}
+        self._join_family = {}
+        self.loop_atoms = set()        # join atoms created at loop heads, and joins of values that mention them
+        self.head_points = set()
         self._live = {}
         self.trait_impls = self.cfg.get('trait_impls', {})   # trait method path -> body key (optional devirtualisation)
         self.max_worlds = self.cfg.get('max_worlds', 96)
@@ -443,6 +446,19 @@ class Interp:
                 return vbool(int(o['bits']) != 0)
         if k == 'tuple' and not ty['of']:
             return UNIT
+        if k == 'ref' and 'promoted' in o:
+            pname = f"{o['item']}::promoted[{o['promoted']}]"
+            pb = self.facts.bodies.get(pname)
+            if pb is not None:
+                root = ('K', pname)
+                if root not in w.mem:
+                    # evaluate the promoted body (constant construction only, no calls)
+                    val = self.eval_promoted(w, pb)
+                    if val is not None:
+                        w.mem[root] = val
+                        w.names[root] = f"const {o['s'].split('::')[-1]}"
+                if root in w.mem:
+                    return ('ref', Loc(root))
         if k == 'ref':
             to = ty['to']
             if to['k'] == 'array' and to['of']['k'] == 'int':
@@ -473,6 +489,29 @@ class Interp:
         if k == 'array' and ty['of']['k'] == 'int':
             return ('arr', ty['len'], ('const', o['s']))
         return ('top', reg_ty(ty), 'const', o['s'])
+
+    def eval_promoted(self, w, pb):
+        """value of the place a promoted constant refers to: run its single block on a scratch
+        frame and read the local behind `_0 = &_n`"""
+        if len(pb.blocks) != 1:
+            return None
+        fid = Obj.fresh()
+        fr = Frame(fid, pb, (('promoted', 0, 'via'),))
+        fr.single_assign = frozenset()
+        self.frames[fid] = fr
+        w2 = w.fork()
+        target = None
+        try:
+            for idx, st in enumerate(pb.blocks[0]['stmts']):
+                if st['s'] == 'assign' and st['place'] == {'local': 0, 'proj': []} and st['rv']['r'] == 'ref':
+                    target = st['rv']['place']
+                    break
+                self.exec_stmt(w2, fr, 0, idx, st)
+            if target is None or target['proj']:
+                return None
+            return w2.mem.get(('L', fid, target['local']))
+        except AnalysisError:
+            return None
 
     def eval_operand(self, w, frame, o):
         k = o['o']
@@ -757,6 +796,9 @@ class Interp:
         data = {'okind': okind, 'ok': ok, 'desc': desc}
         if not ok:
             failing = [c for c in cons if not w.store.entails(c)]
+            if frame.body.key in self.cfg.get('decline_loop_obligations_in', ()) and \
+                    all(any(a in self.loop_atoms for a in c.atoms()) for c in failing):
+                data['declined'] = 'depends on a loop-carried quantity (relational loop invariant out of reach)'
             data['needs'] = [f"{c.pretty()} <= 0" for c in failing]
             data['state'] = self.describe_store(w, failing)
             data['part'] = self.partition(w)
@@ -1000,6 +1042,10 @@ class Interp:
             v = self.eval_operand(w, frame, term['cond'])
             exp = term['expected']
             msg = term['msg']
+            if msg['kind'] == 'Other' and ('Misaligned' in msg.get('s', '') or 'NullPointer' in msg.get('s', '')):
+                # debug-build pointer checks on references derived from Box / slices: trusted (no unsafe code)
+                self.stats['ub_checks_skipped'] = self.stats.get('ub_checks_skipped', 0) + 1
+                return [(term['target'], w)]
             desc = self.assert_desc(w, frame, msg)
             if v[0] == 'bool':
                 d = self.decide(w, v[1])
@@ -1210,7 +1256,10 @@ class Interp:
         import stdsum
         name = fn.get('resolved') or fn['name']
         key = strip_generics(name)
-        self.rec(frame, bb, 'event', site, ('call', key, strip_generics(fn['name']), tuple(args), self.key_desc(w)))
+        self.rec(frame, bb, 'event', site, ('call', key, strip_generics(fn['name']), tuple(args), self.key_desc(w), w.fork()))
+        hook = self.cfg.get('call_hooks', {}).get(key) or self.cfg.get('call_hooks', {}).get(strip_generics(fn['name']))
+        if hook:
+            hook(self, w, frame, site, key, args)
         # panics
         if stdsum.is_panic(key):
             self.fail(w, frame, site, 'panic', f"reachable call to {key}", {'macros': term['span'].get('macros')})
@@ -1362,19 +1411,24 @@ class Interp:
         pending = {0}
         rets = {}
         steps = 0
+        hot = {}
         while pending:
             bb = min(pending, key=lambda b: order.get(b, 1 << 30))
             pending.discard(bb)
             steps += 1
-            if steps > 20000:
-                raise AnalysisError(f"fixpoint did not converge in {body.key}")
+            if steps > self.cfg.get('max_steps', 6000):
+                raise AnalysisError(f"fixpoint did not converge in {body.key} (hot blocks {sorted(hot.items(), key=lambda x: -x[1])[:6]})")
+            hot[bb] = hot.get(bb, 0) + 1
             # ---- assemble the input of this block from the latest outputs of its predecessors
-            incoming = [w0] if bb == 0 else []
+            incoming = [(-1, w0)] if bb == 0 else []
             for p in pred.get(bb, ()):
-                incoming.extend(edge_out.get((p, bb), ()))
+                incoming.extend((p, x) for x in edge_out.get((p, bb), ()))
             groups = {}
-            for w in incoming:
-                groups.setdefault(self.key_of(w, frame), []).append(w)
+            edge_groups = {}
+            for p, w in incoming:
+                k = self.key_of(w, frame)
+                groups.setdefault(k, []).append(w)
+                edge_groups.setdefault(k, {}).setdefault(p, []).append(w)
             inputs = []
             if bb in heads:
                 hs = head_state.setdefault(bb, {})
@@ -1388,6 +1442,7 @@ class Interp:
                             continue
                         n = head_count.get((bb, k), 0)
                         head_count[(bb, k)] = n + 1
+                        self.head_points.add((frame.fid, bb, 0))
                         H, _ = self.join(H, N, (frame.fid, bb, 0), widen=(n >= 2), relational=True)
                     hs[k] = H
                 if len(hs) > self.max_worlds:
@@ -1395,15 +1450,30 @@ class Interp:
                 inputs = list(hs.values())
             else:
                 for k, ws in groups.items():
-                    slots = []
-                    for N in ws:
-                        if any(self.absorbs(e, N) for e in slots):
-                            continue
-                        if len(slots) < self.kslots:
-                            slots.append(N)
+                    # keep up to kslots worlds per partition; when there are more, merge the
+                    # worlds that arrived over the same edge first (they share a branch condition)
+                    buckets = []
+                    for p, bw in sorted(edge_groups[k].items()):
+                        uniq = []
+                        for N in bw:
+                            if not any(self.absorbs(e, N) for e in uniq):
+                                uniq.append(N)
+                        buckets.append(uniq)
+                    total = sum(len(b_) for b_ in buckets)
+                    jn = 0
+                    while total > self.kslots:
+                        big = max(range(len(buckets)), key=lambda i: len(buckets[i]))
+                        if len(buckets[big]) >= 2:
+                            b_ = buckets[big]
+                            x = b_.pop()
+                            b_[-1], _ = self.join(b_[-1], x, (frame.fid, bb, jn), relational=self.cfg.get('relational_all', False))
                         else:
-                            slots[-1], _ = self.join(slots[-1], N, (frame.fid, bb, len(slots) - 1))
-                    inputs.extend(slots)
+                            x = buckets.pop()
+                            buckets[-1][-1], _ = self.join(buckets[-1][-1], x[0], (frame.fid, bb, jn), relational=self.cfg.get('relational_all', False))
+                        jn += 1
+                        total -= 1
+                    for b_ in buckets:
+                        inputs.extend(b_)
                 if len(groups) > self.max_worlds:
                     raise AnalysisError(f"too many partitions at bb{bb} of {body.key}")
             self.stats['worlds_max'] = max(self.stats['worlds_max'], len(inputs))
@@ -1523,6 +1593,11 @@ class Interp:
             for a in SN:
                 ee = SE.get(a, Lin.atom(a))
                 ne = SN[a]
+                # each side's own expression as a bound of the joined value
+                for ex in (ee, ne):
+                    if not ex.is_const() and not ex.coef(a):
+                        cands.add(Lin.atom(a) - ex)
+                        cands.add(ex - Lin.atom(a))
                 lo1, hi1 = E.store.quick_bounds(ee)
                 lo2, hi2 = N.store.quick_bounds(ne)
                 if lo1 is not None and lo2 is not None:
@@ -1724,22 +1799,20 @@ class Interp:
     def join_int(self, a, b, path, ctx):
         """a: Lin in E, b: Lin in N"""
         key = ('join', ctx['point'], path)
-        existing = ATOMS.by_key.get(key)
-        if existing is not None and a == Lin.atom(existing):
-            # re-join: the location already holds this point's join atom
+        fam = self._join_family.setdefault(key, [])
+        if len(a.terms) == 1 and a.const == 0 and a.terms[0][1] == 1 and a.terms[0][0] in fam:
+            # re-join: the location already holds one of this point's join atoms
+            existing = a.terms[0][0]
             prev = ctx['SN'].get(existing)
             if prev is not None and prev != b:
                 return None
             ctx['SN'][existing] = b
             return a
-        if existing is not None:
-            # the atom exists but E holds something else: use a fresh, differently keyed atom
-            n = 1
-            while ATOMS.by_key.get(key + (n,)) is not None:
-                n += 1
-            key = key + (n,)
         nm = self.path_name(path)
-        j = ATOMS.fresh(nm, None, None, key=key, kind='join')
+        j = ATOMS.fresh(nm, None, None, kind='join')
+        fam.append(j)
+        if ctx['point'] in self.head_points or any(x in self.loop_atoms for x in a.atoms()) or any(x in self.loop_atoms for x in b.atoms()):
+            self.loop_atoms.add(j)
         ctx['SE'][j] = a
         ctx['SN'][j] = b
         return Lin.atom(j)
